@@ -35,24 +35,38 @@ Definition validate_identifier (t : text) : bool := forallb isidentifier (split_
 Definition fmt (tpl : list (text * N)) (env : N -> text) : text :=
   flat_map (fun p => fst p ++ (if snd p =? 9 then [] else env (snd p))) tpl.
 
-Definition clean_replacement (r : text) : text :=
+(* the clean-up of a non-identifier replacement: .replace(a, b) calls and sep.join(x.split()), in the order of the code *)
+Definition apply_op (r : text) (op : N * N * text) : text :=
+  let '(kind, a, b) := op in
+  if kind =? 0 then replace1 a b r else join b (py_split r).
+
+Definition clean_with (ops : list (N * N * text)) (r : text) : text :=
   if validate_identifier r then r
-  else depr_wrap_pre ++ replace_chain depr_repls r ++ depr_wrap_post.
+  else depr_wrap_pre ++ fold_left apply_op ops r ++ depr_wrap_post.
+
+Definition clean_replacement (r : text) : text := clean_with depr_ops r.
 
 (* deprecatedToUsefulText, from the point where package, version and replacement are known.
    None = ValueError (invalid package name). *)
-Definition deprecation_text (name package version : text) (replacement : option text) : option text :=
+Definition deprecation_text_with (ops : list (N * N * text)) (name package version : text) (replacement : option text)
+  : option text :=
   if negb (validate_identifier package) then None
   else
     match replacement with
     | Some r =>
-      let r' := clean_replacement r in
+      let r' := clean_with ops r in
       Some (fmt depr_with (fun f => if f =? 0 then name else if f =? 1 then package
                                      else if f =? 2 then version else if f =? 3 then r' else []))
     | None =>
       Some (fmt depr_without (fun f => if f =? 0 then name else if f =? 1 then package
                                         else if f =? 2 then version else []))
     end.
+
+Definition deprecation_text := deprecation_text_with depr_ops.
+
+(* the clean-up before the repair (only '\n' replaced): kept for the _old_refuted witnesses *)
+Definition old_ops : list (N * N * text) := [(0, 10, [32])].
+Definition deprecation_text_old := deprecation_text_with old_ops.
 
 (* getDeprecated: doc=f".. deprecated:: {version}\n   {text}" *)
 Definition deprecation_doc (version text_ : text) : text :=
